@@ -32,7 +32,7 @@ Definition b2 (b : bool) : Z := if b then 1 else 0.
 Definition pc_key (p : pc) : list Z :=
   match p with
   | Idle => [0]
-  | PA_xchg q => [1; q] | PA_link i w q => [2; i; b2 w; q] | PA_probe q => [3; q] | PA_wake q tg => [4; q; b2 tg]
+  | PA_xchg q o => [1; q; b2 o] | PA_link i w q o => [2; i; b2 w; q; b2 o] | PA_probe q => [3; q] | PA_wake q tg => [4; q; b2 tg]
   | PA_rootpush => [5]
   | PW_lock f => [6; f] | PW_tail o => [7; o] | PW_head o => [8; o] | PW_chk o => [9; o] | PW_pop o => [10; o]
   | PW_run o i m => [11; o; i; b2 m] | PW_incall o i m => [12; o; i; b2 m] | PW_next o m => [13; o; b2 m]
@@ -85,7 +85,8 @@ Definition step1 (rb t w : Z) (p : pc) (e : list entry * Z) : option (Z * pc) :=
 
 (* the steps from p that leave the word alone *)
 Definition quiet_nonreading (rb t : Z) (p : pc) : list pc :=
-  if reads_word p || marked_pc p then []
+  if pc_eqb p PR_srmw then [PR_sretry]       (* dq_side_suspend_cnt == 0: retry, the word is not read *)
+  else if reads_word p || marked_pc p then []
   else flat_map (fun e => match step1 rb t 0 p e with Some (w', p') => if w' =? 0 then [p'] else [] | None => [] end) envs.
 Definition quiet_reading (rb t v : Z) (p : pc) : list pc :=
   if reads_word p
